@@ -97,6 +97,9 @@ def build(nd: cg.ClsNode, path: str, npos: int, supplied: t.List[t.List[t.Any]])
     return outcome(lambda: Cls.from_data(list(vals)))
 
 
+_SUBS: t.Dict[t.Any, t.Any] = {}
+
+
 def check(case: t.Any, ctx: Ctx) -> None:
     import pane
     (spec, path, npos, supplied) = case[:4]
@@ -182,6 +185,29 @@ def check(case: t.Any, ctx: Ctx) -> None:
                          f"{'setting' if ka == 'ok' else 'trying to set'} a non-field attribute, dict(set_only=True) has keys "
                          f"{sorted(got[1]) if got[0] == 'ok' else repr(got[1])}, expected {sorted(want)}")
                 return
+    if nd.opts.get('frozen') is False:
+        # the same on an instance of a *subclass*: assigning an inherited field supplies it just like one of the subclass's own
+        key = ('sub', nd.key)
+        if key not in _SUBS:
+            try:
+                _SUBS[key] = type('Sub' + Cls.__name__, (Cls,), {'__annotations__': {'sub_extra': int}, 'sub_extra': pane.field(default=0, kw_only=True)})
+            except TypeError:
+                _SUBS[key] = None      # (a layout that cannot take another field)
+        Sub = _SUBS[key]
+        if Sub is not None:
+            (ks, m2) = outcome(lambda: Sub.from_dict_unchecked({n: getattr(inst, n) for n in names}, set_fields=set(names)))
+            inherited = [f.name for f in nd.fields if f.init and f.name not in names][:1]
+            if ks == 'ok' and all(hasattr(inst, g) for g in inherited):
+                ctx.evaluated()
+                for g in inherited:
+                    setattr(m2, g, getattr(inst, g))
+                setattr(m2, 'sub_extra', 3)
+                got = outcome(lambda: set(m2.dict(set_only=True)))
+                want = set(names) | set(inherited) | {'sub_extra'}
+                if got != ('ok', want):
+                    ctx.fail('set-fields-exact', 'assignment:inherited-field', f"{ident}; on an instance of a subclass (one more field, sub_extra), after assigning the inherited "
+                             f"field(s) {inherited} and sub_extra, dict(set_only=True) has keys {sorted(got[1]) if got[0] == 'ok' else repr(got[1])}, expected {sorted(want)}")
+                    return
     if path == 'unchecked':
         for (n, _, v) in supplied:
             if getattr(inst, n) is not v:
